@@ -851,6 +851,7 @@ threading_shim = types.SimpleNamespace(
 class Queue:
     def __init__(self, maxsize=0):
         self.maxsize = maxsize
+        self._putters = []
         self._items: list = []
         self._getters: list[SimThread] = []
 
@@ -866,11 +867,27 @@ class Queue:
         return not self._items
 
     def full(self):
-        return False
+        return 0 < self.maxsize <= len(self._items)
 
     def put(self, item, block=True, timeout=None):
         s = cur_sched()
         s.yield_point()
+        if self.maxsize > 0:
+            # bounded queue: the producer waits for a free slot
+            me = s.me()
+            end = None if timeout is None else s.now + timeout
+            while len(self._items) >= self.maxsize:
+                if not block:
+                    raise _rq.Full
+                rem = None
+                if end is not None:
+                    rem = end - s.now
+                    if rem <= 0:
+                        raise _rq.Full
+                self._putters.append(me)
+                s.block(("queue-full", id(self)), rem)
+                if me in self._putters:
+                    self._putters.remove(me)
         self._items.append(item)
         if s.put_hook is not None:
             s.put_hook(self, item)          # event recording at the linearization point of the put
@@ -900,6 +917,10 @@ class Queue:
             if me in self._getters:
                 self._getters.remove(me)
         item = self._items.pop(0)
+        if self._putters:
+            for p_ in self._putters:
+                s._wake(p_)
+            self._putters = []
         if s.op_hook is not None:
             s.op_hook("get", self, item)
         return item
